@@ -107,7 +107,7 @@ Lemma m_g_heads n l m r2 cur prev :
 Proof.
   revert l cur prev. induction n as [|n IH]; intros l cur prev; cbn [g_heads map].
   - now rewrite m_hd.
-  - rewrite m_hd, IH, m_g_next. now rewrite map_tl.
+  - rewrite m_hd, IH, m_g_next. now destruct cur.
 Qed.
 
 Lemma map_combine {X Y X' Y'} (g : X -> X') (h : Y -> Y') a b :
@@ -116,12 +116,15 @@ Proof.
   revert b. induction a as [|x a IH]; intros [|y b]; cbn; try reflexivity. now rewrite IH.
 Qed.
 
+Lemma map_repeat' {X Y} (g : X -> Y) x n : map g (repeat x n) = repeat (g x) n.
+Proof. induction n; cbn; [reflexivity|now f_equal]. Qed.
+
 Lemma m_s_row m r2 row : map pmap (s_row KA m r2 row) = s_row KB m (f r2) (map pmap row).
 Proof.
   unfold s_row. rewrite !map_length.
   change pmap with (fun t : A * A => (f (fst t), f (snd t))).
   rewrite map_combine, !m_g_heads, !map_map. cbn [fst snd].
-  rewrite map_repeat, f0. reflexivity.
+  rewrite map_repeat', f0. reflexivity.
 Qed.
 
 Lemma m_s_tri m r2 tri : map (map pmap) (s_tri KA m r2 tri) = s_tri KB m (f r2) (map (map pmap) tri).
